@@ -77,6 +77,11 @@ func (p *Prog) expr(v ssa.Value, onPath map[ssa.Value]bool, depth int) *Expr {
 	case *ssa.Parameter:
 		for i, q := range v.Parent().Params {
 			if q == v {
+				if v.Parent().Parent() != nil {
+					// parameter of a function literal: keep it apart from the
+					// enclosing function's parameters, which literals also see
+					return &Expr{Op: "param", Name: fmt.Sprintf("c%d", i), Val: v}
+				}
 				return &Expr{Op: "param", Name: fmt.Sprintf("p%d", i), Val: v}
 			}
 		}
